@@ -18,6 +18,21 @@
 #include "gen_video.h"
 #include "verif_rt.h"
 
+/* ledger functions exist only when the allocation wrappers are linked (verif_wrap_alloc.c) */
+extern void vrt_ledger_start(void) __attribute__((weak));
+extern void vrt_ledger_stop(void) __attribute__((weak));
+extern void vrt_ledger_get(VrtLedger *out) __attribute__((weak));
+extern void vrt_ledger_dump(FILE *f, int max) __attribute__((weak));
+#include <dirent.h>
+static int n_tasks(void) {
+    DIR *d = opendir("/proc/self/task");
+    int  n = 0;
+    if (!d) return -1;
+    struct dirent *e;
+    while ((e = readdir(d))) if (e->d_name[0] != '.') n++;
+    closedir(d);
+    return n;
+}
 static FILE *g_ev, *g_pk;
 static const char *g_phase = "start";
 static int g_sent, g_pkts, g_recons;
@@ -326,6 +341,11 @@ int main(int argc, char **argv) {
             if (cfg_fields[i].kind == 0)
                 for (size_t k = 0; k < cfg_fields[i].count; k++) put_int(cfg, &cfg_fields[i], k, 3 + (long long)(i % 5));
     }
+    int tasks0 = n_tasks();
+    fprintf(g_ev, "{\"ev\":\"Begin\"}\n");
+    fflush(g_ev);
+    fflush(g_pk);
+    if (vrt_ledger_start) vrt_ledger_start();
     g_phase        = "init_handle";
     EbErrorType rc = svt_av1_enc_init_handle(&g_h_enc, NULL, cfg);
     fprintf(g_ev, "{\"ev\":\"InitHandle\",\"rc\":%d}\n", (int)rc);
@@ -485,6 +505,15 @@ int main(int argc, char **argv) {
     pic_free(&pic);
     free(g_recon_hdr.p_buffer);
     free(cfg);
+    if (vrt_ledger_get) {
+        VrtLedger L;
+        vrt_ledger_stop();
+        usleep(2000);
+        vrt_ledger_get(&L);
+        fprintf(g_ev, "{\"ev\":\"Ledger\",\"mem\":%ld,\"mutex\":%ld,\"sem\":%ld,\"thread\":%ld,\"tasks_before\":%d,\"tasks_after\":%d}\n", L.mem,
+                L.mutex, L.sem, L.thread, tasks0, n_tasks());
+        if (L.mem || L.mutex || L.sem || L.thread) vrt_ledger_dump(g_ev, 10);
+    }
     fclose(g_ev);
     fclose(g_pk);
     vrt_trace_close();
